@@ -512,10 +512,14 @@ func ParseContracts(file string) ([]*Contract, error) {
 			}
 			c := &Cut{Anchor: rest, Kind: m[1], Target: m[2], Index: -1}
 			if strings.HasPrefix(rest, "before") {
-				if c.Kind != "def" {
-					return nil, fail(fmt.Errorf("'before' anchors are only supported for def"))
+				switch c.Kind {
+				case "def":
+					c.Kind = "beforedef"
+				case "call":
+					c.Kind = "beforecall" // callarg<k> are bound; nothing of the call has been executed yet
+				default:
+					return nil, fail(fmt.Errorf("'before' anchors are only supported for def and call"))
 				}
-				c.Kind = "beforedef"
 			}
 			c.Ord, _ = strconv.Atoi(m[3])
 			if i := strings.Index(c.Target, "["); i >= 0 && strings.HasSuffix(c.Target, "]") {
